@@ -937,8 +937,15 @@ std::vector<double> Minimization::minimize(std::vector<std::vector<double>>& pp,
 		}
 		if(nfunc >= NMAX)
 		{
-			std::cerr << "Error in libphysica::Minimization::minimize(): NMAX exceeded." << std::endl;
-			std::exit(EXIT_FAILURE);
+			std::cerr << "Warning in libphysica::Minimization::minimize(): NMAX exceeded. Return the best point found." << std::endl;
+			std::swap(y[0], y[ilo]);
+			for(int i = 0; i < ndim; i++)
+			{
+				std::swap(current_simplex[0][i], current_simplex[ilo][i]);
+				pmin[i] = current_simplex[0][i];
+			}
+			fmin = y[0];
+			return pmin;
 		}
 		nfunc += 2;
 
